@@ -187,7 +187,7 @@ fn gen_threshold(prop: &str, r: &mut Prng, seed: u64, run: u64) -> Scenario {
             facts.terms.push(crate::facts::TermFact { id, name: format!("t{id}"), obsolete: false, replacement: None });
         }
         facts.isa = vec![(118, 1), (200, 118), (300, 200)];
-        let n = [65_535usize, 65_536, 65_540, 70_000][(run / 3_000) as usize % 4];
+        let n = [65_535usize, 65_536, 65_540, 70_000][(run / 6_000) as usize % 4];
         let _ = r.next_u64();
         let kind = r.usize_below(3);
         for j in 0..n {
